@@ -708,6 +708,72 @@ class InterjacentExons(Contract):
         I.e.prove('C16/interjacent/run-is-maximal', z3.Or(nxt < 0, nxt >= h.n, z3.Not(self.inside(nxt))))
 
 
+class _Spanning(Contract):
+    """the exon of the transcript that contains the base next to the junction on this side (the last base before the junction's upstream end /
+    the first base at its downstream start), searched among the exons on the far side of the aligned exon when there is one; -1 if no such
+    exon contains it"""
+    props = ('C16',)
+    side = 'upstream'
+    models = (install_exon_identity,)
+    assumptions = ('requires: an index is -1 or an exon position; exons sorted, non-empty, disjoint; summary: get_exon_containing is its proved contract',)
+
+    @property
+    def path(self):
+        return SJ
+
+    @property
+    def qualname(self):
+        return 'SpliceJunctionTranscriptAlignment.get_upstream_end_spanning' if self.side == 'upstream' else 'SpliceJunctionTranscriptAlignment.get_downstream_start_spanning'
+
+    def setup(self, I):
+        e = I.e
+        st = types.SimpleNamespace()
+        st.h = mk_tx_tagged(I, gene_id='G')
+        h = st.h
+        for a in h.axioms:
+            e.assume(a)
+        st.U, st.D = e.int('junction_upstream_end'), e.int('junction_downstream_start')
+        st.ue, st.ds = e.int('upstream_end_index'), e.int('downstream_start_index')
+        e.assume(z3.And(-1 <= st.ue, st.ue < h.n, -1 <= st.ds, st.ds < h.n))
+        junction = SymObj('SpliceJunction', upstream_start=None, upstream_end=st.U, downstream_start=st.D, downstream_end=None, gene_id='G', chrom='chr1')
+        st.args = [SymObj('SpliceJunctionTranscriptAlignment', junction=junction, tx_model=h.obj, upstream_start_index=-1, upstream_end_index=st.ue,
+                          downstream_start_index=st.ds, downstream_end_index=-1, upstream_novel=True, downstream_novel=True)]
+        st.x = st.U - 1 if self.side == 'upstream' else st.D
+        self._cur = st
+        return st
+
+    def holds(self, i):
+        st = self._cur
+        return z3.And(st.h.s[i] <= st.x, st.x < st.h.e[i])
+
+    def inv(self, I, env, k):
+        st = self._cur
+        i = env['i']
+        j = z3.Int('j_sp')
+        if self.side == 'upstream':
+            return [('cursor-in-range', z3.And(-1 <= i, i < st.ds)), ('no-later-candidate-contains-the-base', z3.ForAll([j], z3.Implies(z3.And(i < j, j < st.ds), z3.Not(self.holds(j)))))]
+        return [('cursor-in-range', z3.And(st.ue < i, i <= st.h.n)), ('no-earlier-candidate-contains-the-base', z3.ForAll([j], z3.Implies(z3.And(st.ue < j, j < i), z3.Not(self.holds(j)))))]
+
+    @property
+    def loops(self):
+        dec = (lambda I, env, k: env['i'] + 1) if self.side == 'upstream' else (lambda I, env, k: self._cur.h.n - env['i'])
+        return {0: LoopSpec(inv=self.inv, decreases=dec)}
+
+    def post_return(self, I, st, ret):
+        h = st.h
+        j = z3.Int('j_post')
+        if self.side == 'upstream':
+            cand = lambda q: z3.And(0 <= q, q < h.n, z3.Or(st.ds == -1, q < st.ds))
+        else:
+            cand = lambda q: z3.And(0 <= q, q < h.n, z3.Or(st.ue == -1, q > st.ue))
+        I.e.prove(f'C16/{self.side}-spanning/the-candidate-exon-containing-the-base-or-minus-one',
+                  z3.Or(z3.And(ret == -1, z3.ForAll([j], z3.Implies(cand(j), z3.Not(self.holds(j))))), z3.And(cand(ret), self.holds(ret))))
+
+
+for _side in ('upstream', 'downstream'):
+    register(type(f'Spanning_{_side}', (_Spanning,), dict(side=_side)))
+
+
 class _Interjacent(View):
     """the exons lying between the two ends of a junction: consecutive indices first .. first+m-1 (contract of get_interjacent_exons)"""
     def __init__(self, first, m):
@@ -818,6 +884,121 @@ class _JunctionDeletion(Contract):
 
 for _side in ('upstream', 'downstream'):
     register(type(f'JunctionDeletion_{_side}', (_JunctionDeletion,), dict(side=_side)))
+
+
+class _JunctionInsSub(Contract):
+    """insertion: the novel exon of the junction (clipped at the neighbouring exon) is inserted next to that neighbour, at the exon base on its
+    5-prime side in transcript direction; substitution: the hull of the interjacent exons is replaced by the novel exon (clipped at the
+    neighbouring exon when there is one). All intervals are the gene-coordinate images of the genomic intervals, on both strands"""
+    props = ('C16',)
+    kind = 'upstream_insertion'
+    declared_raises = ['ValueError']
+    models = (install_exon_identity,)
+    assumptions = ('requires (call site): the junction carries all four coordinates; the aligned exon indices are positions of exons with that '
+                   'boundary; interjacent exons are consecutive (contract of get_interjacent_exons); only the quantifier-free order facts of the '
+                   'exons involved are assumed', 'summary: coordinate_genomic_to_gene is its proved contract (C11)')
+
+    @property
+    def path(self):
+        return SJ
+
+    @property
+    def qualname(self):
+        return f'SpliceJunctionTranscriptAlignment.create_{self.kind}'
+
+    def setup(self, I):
+        e = I.e
+        st = types.SimpleNamespace()
+        st.gn = mk_gene_tagged(I, gene_id='G')
+        st.h = mk_tx_tagged(I, gene_id='G')
+        h = st.h
+        st.US, st.U, st.D, st.DE = e.int('junction_upstream_start'), e.int('junction_upstream_end'), e.int('junction_downstream_start'), e.int('junction_downstream_end')
+        st.ue, st.ds, st.usi = e.int('upstream_end_index'), e.int('downstream_start_index'), e.int('upstream_start_index')
+        st.first, st.m = e.int('first_interjacent'), e.int('n_interjacent')
+        last = st.first + st.m - 1
+        e.assume(z3.And(st.gn.start < st.gn.end, h.n >= 1, st.US < st.U, st.U < st.D, st.D < st.DE))
+        pos = lambda i: z3.And(0 <= i, i < h.n, h.s[i] < h.e[i], h.s[i] >= 0)
+        e.assume(z3.Or(st.ue == -1, z3.And(pos(st.ue), h.e[st.ue] == st.U)))
+        e.assume(z3.Or(st.ds == -1, z3.And(pos(st.ds), h.s[st.ds] == st.D)))
+        e.assume(z3.And(-1 <= st.usi, st.usi < h.n))
+        if 'insertion' in self.kind:
+            # neighbours of the aligned exon (when they exist) are ordered around it
+            e.assume(z3.Implies(st.ds > 0, z3.And(pos(st.ds - 1), h.e[st.ds - 1] < h.s[st.ds])))
+            e.assume(z3.Implies(z3.And(st.ue >= 0, st.ue + 1 < h.n), z3.And(pos(st.ue + 1), h.e[st.ue] < h.s[st.ue + 1])))
+            if self.kind == 'downstream_insertion':
+                # call site: an exon ending at the junction's downstream end exists and is not the last one; it lies after the exon
+                # that ends at the upstream end, so that exon has a successor (the function itself tests upstream_start_index instead)
+                e.assume(z3.Implies(st.ue >= 0, st.ue + 1 < h.n))
+            args = []
+        else:
+            e.assume(z3.And(st.m >= 1, pos(st.first), pos(last), z3.Implies(st.m >= 2, h.e[st.first] < h.s[last]), st.U <= h.s[st.first], h.e[last] <= st.D))
+            e.assume(z3.Implies(st.first > 0, z3.And(pos(st.first - 1), h.e[st.first - 1] < h.s[st.first])))
+            e.assume(z3.Implies(last + 1 < h.n, z3.And(pos(last + 1), h.e[last] < h.s[last + 1])))
+            args = [_Interjacent(st.first, st.m)]
+        st.G = PStr.sym(e, 'gene_seq', st.gn.end - st.gn.start)
+        st.gn.obj.fields['gene_name'] = 'SYMBOL'
+        st.gn.obj.fields['strand'] = st.gn.strand
+        st.anno = SymObj('GenomicAnnotation', genes={'G': st.gn.obj}, transcripts={}, source='GENCODE', gene_id_version_mapper=None, version=None, _cached_tx_seqs=[])
+        junction = SymObj('SpliceJunction', upstream_start=st.US, upstream_end=st.U, downstream_start=st.D, downstream_end=st.DE, gene_id='G', chrom='chr1')
+        st.aln = SymObj('SpliceJunctionTranscriptAlignment', junction=junction, tx_model=h.obj, upstream_start_index=st.usi, upstream_end_index=st.ue,
+                        downstream_start_index=st.ds, downstream_end_index=-1, upstream_novel=True, downstream_novel=True)
+        st.args = [st.aln] + args + [st.anno, SymObj('GeneSeq16', seq=st.G), SymObj('VarId16')]
+        self._cur = st
+        return st
+
+    @property
+    def models(self):
+        def inst(reg):
+            install_exon_identity(reg)
+            reg.ctor_('VariantRecord', lambda I, a, k: SymObj('VariantRecord', **dict(zip(['location', 'ref', 'alt', 'type', 'id', 'attrs'], a))))
+        return (inst,)
+
+    def image(self, lo, hi):
+        gn = self._cur.gn
+        return z3.If(gn.strand == 1, lo - gn.start, gn.end - hi), z3.If(gn.strand == 1, hi - gn.start, gn.end - lo)
+
+    def post_return(self, I, st, ret):
+        e, h, gn = I.e, st.h, st.gn
+        mx = lambda a, b: z3.If(a >= b, a, b)
+        mn = lambda a, b: z3.If(a <= b, a, b)
+        last = st.first + st.m - 1
+        loc, at = ret.fields['location'], ret.fields['attrs']
+        k = self.kind
+        if k == 'upstream_insertion':
+            prev = st.ds - 1
+            dlo, dhi = mx(h.e[prev], st.US), st.U
+            anchor = z3.If(gn.strand == 1, h.e[prev] - 1, st.D)
+        elif k == 'downstream_insertion':
+            nxt = st.ue + 1
+            dlo, dhi = st.D, mn(h.s[nxt], st.DE)
+            anchor = z3.If(gn.strand == 1, st.U - 1, h.s[nxt])
+        elif k == 'upstream_substitution':
+            dlo, dhi = z3.If(st.first > 0, mx(h.e[st.first - 1], st.US), st.US), st.U
+        else:
+            dlo, dhi = st.D, z3.If(last < h.n - 1, mn(h.s[last + 1], st.DE), st.DE)
+        da, db = self.image(dlo, dhi)
+        e.prove(f'C16/{k}/donor=gene-image-of-the-novel-exon-clipped-at-its-neighbour', z3.And(at.get('DONOR_START') == da, at.get('DONOR_END') == db, at.get('DONOR_GENE_ID') == 'G'))
+        if 'insertion' in k:
+            p_ = g2gene_val(gn, anchor)
+            e.prove(f'C16/{k}/inserted-next-to-the-neighbouring-exon-on-its-5-prime-side-in-transcript-direction',
+                    z3.And(loc.fields['start'] == p_, loc.fields['end'] == p_ + 1, ret.fields['type'] == 'Insertion'))
+            first_base = p_
+        else:
+            ra, rb = self.image(h.s[st.first], h.e[last])
+            e.prove(f'C16/{k}/replaced=gene-image-of-the-hull-of-the-interjacent-exons',
+                    z3.And(loc.fields['start'] == ra, loc.fields['end'] == rb, at.get('START') == ra, at.get('END') == rb, ret.fields['type'] == 'Substitution'))
+            first_base = ra
+        e.prove(f'C16/{k}/record-on-the-gene-for-this-transcript', loc.fields['seqname'] == 'G' and at.get('TRANSCRIPT_ID') == 'ENST_T')
+        ref = ret.fields['ref']
+        e.prove(f'C16/{k}/ref=gene-base-at-the-record-start', ref.get(0) == st.G.get(first_base) if isinstance(ref, PStr) else False)
+
+    def post_raise(self, I, st, exc):
+        # besides positions outside the gene (coordinate_genomic_to_gene), the constructors refuse an alignment without the neighbour they need
+        pass
+
+
+for _kind in ('upstream_insertion', 'downstream_insertion', 'upstream_substitution', 'downstream_substitution'):
+    register(type(f'Junction_{_kind}', (_JunctionInsSub,), dict(kind=_kind)))
 
 
 @register
